@@ -231,6 +231,41 @@ var ruleEntry = &Rule{
 			out.undecided("ExistsOrMatch", "-", "", "anchor unresolved")
 		}
 
+		// the methods of *Path that wrap an entry point hand it all they were given
+		nfw := 0
+		for fn := range p.AllFns {
+			if fnPkgPath(fn) != pkgPath || fn.Blocks == nil || fn.Signature.Recv() == nil || len(fn.Params) < 2 {
+				continue
+			}
+			for _, c := range p.allCalls(fn) {
+				name := p.entryBehind(c.Call.StaticCallee(), fns)
+				if name == "" {
+					continue
+				}
+				nfw++
+				var missing []string
+				for _, q := range fn.Params[1:] {
+					found := false
+					for _, a := range c.Call.Args {
+						if a == ssa.Value(q) {
+							found = true
+						}
+					}
+					if !found {
+						missing = append(missing, q.Name())
+					}
+				}
+				key := fmt.Sprintf("%s forwards its arguments to %s", fnName(fn), name)
+				if len(missing) == 0 {
+					out.ok(key, p.pos(c.Pos()), fnName(fn), "context, value and options are passed on as received")
+				} else {
+					out.viol(key, p.pos(c.Pos()), fnName(fn), "the wrapper does not pass on "+strings.Join(missing, ", ")+": options such as WithSilent, WithVars or WithTZ (or the caller's context or value) never reach the executor on this route")
+				}
+			}
+		}
+		out.Counts["wrapper_calls_of_entry_points"] = nfw
+		out.Floors["wrapper_calls_of_entry_points"] = 4
+
 		// nil collectors
 		ncoll := 0
 		for _, fn := range p.execFuncs() {
@@ -640,12 +675,12 @@ func (p *Prog) entrySuccessTag(name string, fn *ssa.Function, r RetSite, res0 ss
 		var elem ssa.Value
 		for _, f := range fs {
 			bo, ok := f.Cond.(*ssa.BinOp)
-			if !ok || bo.Op != token.EQL {
+			if !ok || (bo.Op != token.EQL && bo.Op != token.NEQ) {
 				continue
 			}
 			if base, ok := listLenOf(bo.X, "list"); ok && base == res0 {
 				if k, ok := constInt(bo.Y); ok && k == 1 {
-					if f.Truth {
+					if f.Truth == (bo.Op == token.EQL) {
 						one = 1
 					} else {
 						one = -1
